@@ -55,6 +55,7 @@ type Exec struct {
 	Abort bool   `json:"abort,omitempty"`
 	Touch int    `json:"touch,omitempty"` // what the node saw of the state it shares with its ancestors
 	Fault bool   `json:"fault,omitempty"` // the execution ended with the injected transient error (retry phase)
+	Conc  int    `json:"conc,omitempty"`  // > 0: the execution belongs to that caller of the concurrent first calls (Case.Conc)
 }
 
 // Event: pre-handler (submit) / post-handler (collection) of a node in a stateful graph.
@@ -63,6 +64,7 @@ type Event struct {
 	Graph int    `json:"g"`
 	Kind  string `json:"k"` // pre | post
 	ID    int    `json:"id"`
+	Conc  int    `json:"conc,omitempty"`
 }
 
 type ModObs struct {
@@ -101,20 +103,34 @@ func newRecorder(rerunOn bool) *recorder {
 	return &recorder{attempts: map[int]int{}, rerunOn: rerunOn}
 }
 
-func (r *recorder) begin(gi, id int, path string, in any) (*Exec, int) {
-	r.mu.Lock()
-	defer r.mu.Unlock()
-	r.attempts[id]++
-	e := &Exec{Seg: r.seg, Seq: r.seq, Graph: gi, ID: id, Path: path, In: canon(in)}
-	r.seq++
-	r.execs = append(r.execs, e)
-	return e, r.attempts[id]
+// concKey: the context of a caller of the concurrent first calls (Case.Conc) carries its number (from 1); the
+// context of every other call carries none (0). Node bodies and handlers are reached with a context derived
+// from the caller's, which is how their log entries are attributed to one of several calls in flight.
+type concKey struct{}
+
+func concOf(ctx context.Context) int {
+	k, _ := ctx.Value(concKey{}).(int)
+	return k
 }
 
-func (r *recorder) event(gi int, kind string, id int) {
+// begin: the attempts of a node are counted per caller (the rerun tables of concurrent calls do not mix).
+func (r *recorder) begin(ctx context.Context, gi, id int, path string, in any) (*Exec, int) {
+	k := concOf(ctx)
 	r.mu.Lock()
 	defer r.mu.Unlock()
-	r.events = append(r.events, Event{Seg: r.seg, Graph: gi, Kind: kind, ID: id})
+	a := id + k*10000000
+	r.attempts[a]++
+	e := &Exec{Seg: r.seg, Seq: r.seq, Graph: gi, ID: id, Path: path, In: canon(in), Conc: k}
+	r.seq++
+	r.execs = append(r.execs, e)
+	return e, r.attempts[a]
+}
+
+func (r *recorder) event(ctx context.Context, gi int, kind string, id int) {
+	k := concOf(ctx)
+	r.mu.Lock()
+	defer r.mu.Unlock()
+	r.events = append(r.events, Event{Seg: r.seg, Graph: gi, Kind: kind, ID: id, Conc: k})
 }
 
 type builder struct {
@@ -126,14 +142,36 @@ type builder struct {
 	// the two slices of Case.Lists: created once per build, the same objects for every graph that shares them
 	shBefore, shAfter []string
 	shMade            bool
+	// pad > 0: every interrupt list handed to Compile carries pad more names that no graph declares (Case.Pad)
+	pad int
 }
+
+// padded appends b.pad names of no node to a list that is about to be handed to Compile.
+func (b *builder) padded(l []string) []string {
+	if b.pad == 0 {
+		return l
+	}
+	padMu.Lock()
+	for i := len(padNames); i < b.pad; i++ {
+		padNames = append(padNames, "absent-node-"+strconv.Itoa(i))
+	}
+	names := padNames[:b.pad]
+	padMu.Unlock()
+	out := make([]string, 0, len(l)+b.pad)
+	return append(append(out, l...), names...) // the caller's own slice every time
+}
+
+var (
+	padMu    sync.Mutex
+	padNames []string
+)
 
 // sharedLists returns the one []string per kind handed to every graph listed in Case.Lists.
 func (b *builder) sharedLists() (before, after []string) {
 	if !b.shMade {
 		b.shMade = true
-		b.shBefore = keys(b.c.Lists.Before)
-		b.shAfter = keys(b.c.Lists.After)
+		b.shBefore = b.padded(keys(b.c.Lists.Before))
+		b.shAfter = b.padded(keys(b.c.Lists.After))
 	}
 	return b.shBefore, b.shAfter
 }
@@ -143,10 +181,10 @@ func (b *builder) listNote() string {
 	if !b.shMade {
 		return ""
 	}
-	if fmt.Sprint(b.shBefore) != fmt.Sprint(keys(b.c.Lists.Before)) {
+	if b.pad == 0 && fmt.Sprint(b.shBefore) != fmt.Sprint(keys(b.c.Lists.Before)) {
 		return fmt.Sprintf("the caller's interrupt-before list %v reads %v after Compile", keys(b.c.Lists.Before), b.shBefore)
 	}
-	if fmt.Sprint(b.shAfter) != fmt.Sprint(keys(b.c.Lists.After)) {
+	if b.pad == 0 && fmt.Sprint(b.shAfter) != fmt.Sprint(keys(b.c.Lists.After)) {
 		return fmt.Sprintf("the caller's interrupt-after list %v reads %v after Compile", keys(b.c.Lists.After), b.shAfter)
 	}
 	return ""
@@ -200,7 +238,7 @@ func copyMap(in map[string]any) map[string]any {
 func (b *builder) preHandler(gi int, n NodeSpec) compose.StatePreHandler[map[string]any, *St] {
 	k := key(n.ID)
 	return func(ctx context.Context, in map[string]any, st *St) (map[string]any, error) {
-		b.rec.event(gi, "pre", n.ID)
+		b.rec.event(ctx, gi, "pre", n.ID)
 		if !n.St {
 			return in, nil
 		}
@@ -225,7 +263,7 @@ func (b *builder) preHandler(gi int, n NodeSpec) compose.StatePreHandler[map[str
 func (b *builder) atomPreHandler(gi int, n NodeSpec) compose.StatePreHandler[string, *St] {
 	k := key(n.ID)
 	return func(ctx context.Context, in string, st *St) (string, error) {
-		b.rec.event(gi, "pre", n.ID)
+		b.rec.event(ctx, gi, "pre", n.ID)
 		if !n.St {
 			return in, nil
 		}
@@ -248,7 +286,7 @@ func (b *builder) atomPreHandler(gi int, n NodeSpec) compose.StatePreHandler[str
 func (b *builder) atomLambda(gi int, n NodeSpec, path string) *compose.Lambda {
 	k := key(n.ID)
 	return compose.InvokableLambda(func(ctx context.Context, in string) (map[string]any, error) {
-		e, att := b.rec.begin(gi, n.ID, path, in)
+		e, att := b.rec.begin(ctx, gi, n.ID, path, in)
 		if b.rec.takeFault(e) {
 			return nil, errTransient
 		}
@@ -268,14 +306,14 @@ func (b *builder) atomLambda(gi int, n NodeSpec, path string) *compose.Lambda {
 
 func (b *builder) postHandler(gi int, n NodeSpec) compose.StatePostHandler[map[string]any, *St] {
 	return func(ctx context.Context, out map[string]any, st *St) (map[string]any, error) {
-		b.rec.event(gi, "post", n.ID)
+		b.rec.event(ctx, gi, "post", n.ID)
 		return out, nil
 	}
 }
 
 func (b *builder) leafPostHandler(gi int, n NodeSpec) compose.StatePostHandler[string, *St] {
 	return func(ctx context.Context, out string, st *St) (string, error) {
-		b.rec.event(gi, "post", n.ID)
+		b.rec.event(ctx, gi, "post", n.ID)
 		return out, nil
 	}
 }
@@ -283,7 +321,7 @@ func (b *builder) leafPostHandler(gi int, n NodeSpec) compose.StatePostHandler[s
 // leafLambda: a node whose output is not a map (a string: the size of its input).
 func (b *builder) leafLambda(gi int, n NodeSpec, path string) *compose.Lambda {
 	return compose.InvokableLambda(func(ctx context.Context, in map[string]any) (string, error) {
-		e, att := b.rec.begin(gi, n.ID, path, in)
+		e, att := b.rec.begin(ctx, gi, n.ID, path, in)
 		if b.rec.takeFault(e) {
 			return "", errTransient
 		}
@@ -319,7 +357,7 @@ func (b *builder) lambda(gi int, n NodeSpec, path string) *compose.Lambda {
 	}
 	k := key(n.ID)
 	return compose.InvokableLambda(func(ctx context.Context, in map[string]any) (map[string]any, error) {
-		e, att := b.rec.begin(gi, n.ID, path, in)
+		e, att := b.rec.begin(ctx, gi, n.ID, path, in)
 		if b.rec.takeFault(e) {
 			return nil, errTransient
 		}
@@ -333,6 +371,9 @@ func (b *builder) lambda(gi int, n NodeSpec, path string) *compose.Lambda {
 			return nil, rerunErr(att)
 		}
 		b.touch(ctx, gi, k, e)
+		if n.Empty {
+			return map[string]any{}, nil
+		}
 		return map[string]any{k: in}, nil
 	})
 }
@@ -388,10 +429,10 @@ func (b *builder) compileOpts(gi int) []compose.GraphCompileOption {
 			}
 		} else {
 			if len(g.Before) > 0 {
-				opts = append(opts, compose.WithInterruptBeforeNodes(keys(g.Before)))
+				opts = append(opts, compose.WithInterruptBeforeNodes(b.padded(keys(g.Before))))
 			}
 			if len(g.After) > 0 {
-				opts = append(opts, compose.WithInterruptAfterNodes(keys(g.After)))
+				opts = append(opts, compose.WithInterruptAfterNodes(b.padded(keys(g.After))))
 			}
 		}
 	}
